@@ -1060,6 +1060,9 @@ Corollary history_outputs d r ops h t : abs d h r = Some t -> fixed_D97 = true \
   snd (runI d (init_state h r) ops) = snd (runS d t ops).
 Proof. apply history_outputs_guarded. Qed.
 
+Corollary history_outputs_head d r ops h t : abs d h r = Some t -> snd (runI d (init_state h r) ops) = snd (runS d t ops).
+Proof. intros H. apply history_outputs; [exact H|]. now left. Qed.
+
 (* ------------------------------------------------------------------ the frame property of the specification:
    a functional update at path n changes the node at n and no other (first-match dictionaries).
    `same_addr t n m`: do n and m address the same node of t (components beyond the leaf level are ignored, as the code does) *)
